@@ -140,6 +140,10 @@ def main():
     for name, text, ok in gfam.interface_family(args.tier):
         for t in TOOLS:
             cases.append({'tool': t, 'cls': 'interface' if ok else 'interface-invalid', 'detail': name, 'text': text})
+    for c in gfam.diagnostic_catalogue():
+        if 'extra_files' not in c:
+            for t in TOOLS:
+                cases.append({'tool': t, 'cls': 'diagnostic-path', 'detail': c['cls'] + '/' + c['detail'], 'text': c['text']})
     for name, path in gfam.shipped():
         big = os.path.getsize(path) > 400000
         for t in TOOLS:
